@@ -249,7 +249,7 @@ def run(tier: str) -> int:
                                 configs=lambda g, root, tier: [Config(root, 1, 'o', 'lf_crlf', 0, uw, 0, 0, 0, cv) for uw in (1, 0) for cv in (1, 2, 3)]),   # parse() defaults: apply_mode::action, rewind_mode::optional
         # every raising / catching rule kind through the same three facilities (their control adaptors have separate code paths for
         # raise and raise_nested, and for zero, one and several states)
-        profiles.systematic_profile('covsys', lambda k, f: f == 'raise', True, 24, 120, ORACLES, actions_mode='throw', racts='off',
+        profiles.systematic_profile('covsys', lambda k, f: f == 'raise', True, 28, 120, ORACLES, actions_mode='throw', racts='off',
                                     inputs=profiles.inputs_exhaustive(3, 4, cap_q=50, cap_t=300), per_tu=2,
                                     configs=lambda g, root, tier: [Config(root, 1, 'o', 'lf_crlf', 0, 1, 0, 0, 0, cv) for cv in (1, 2, 3)],
                                     ctx_names=['top', 'seq-tail', 'in-tcrf']),
